@@ -211,10 +211,15 @@ func linCollect(t *Term, k *big.Int, l *linForm, depth int) {
 // splitByDivisor writes a non-negative a as k·q + r with 0 <= r < k shown by
 // intervals (q, r linear in a's atoms); ok=false when that cannot be shown.
 func (f *TF) splitByDivisor(a *Term, k *big.Int) (q, r *Term, ok bool) {
+	return f.splitByDivisorS(a, k, true)
+}
+
+// splitByDivisorS with nonNeg=false is valid for Euclidean div/mod of any sign (floor quotient).
+func (f *TF) splitByDivisorS(a *Term, k *big.Int, nonNeg bool) (q, r *Term, ok bool) {
 	if a.Op != "+" && a.Op != "-" && a.Op != "*" {
 		return nil, nil, false
 	}
-	if a.Lo == nil || a.Lo.Sign() < 0 {
+	if nonNeg && (a.Lo == nil || a.Lo.Sign() < 0) {
 		return nil, nil, false
 	}
 	l := &linForm{c: new(big.Int)}
@@ -426,6 +431,12 @@ func (f *TF) Wrap(x *Term, bits int, signed bool) *Term {
 			r.Sub(r, m)
 		}
 		return f.IntB(r)
+	}
+	if !signed {
+		// x mod 2^bits of a linear form whose low part is visible: k*q + r with 0 <= r < 2^bits
+		if _, r, ok := f.splitByDivisorS(x, new(big.Int).Lsh(bi(1), uint(bits)), false); ok {
+			return r
+		}
 	}
 	op := "wrapu"
 	if signed {
